@@ -72,6 +72,17 @@ def make_case(ctx, rng, route, norb):
         ham = fqe.get_restricted_hamiltonian((h1,), e_0=e0)
         # a spin-restricted Hamiltonian also acts on spin-broken wavefunctions (same matrix on both spin blocks)
         return ham, U.restricted_terms([h1], norb), e0, rng.choice(["single", "multi", "spinbroken"])
+    if route == "quadratic-sb":
+        # spin-restricted complex Hermitian one-body Hamiltonian on a spin-broken wavefunction (the exact quadratic
+        # route uses the same rotation on both spin blocks)
+        h1 = numpy.zeros((norb, norb), dtype=numpy.complex128)
+        for i in range(norb):
+            h1[i, i] = small()
+            for j in range(i + 1, norb):
+                z = small() + 1j * small()
+                h1[i, j], h1[j, i] = z, numpy.conj(z)
+        ham = fqe.get_restricted_hamiltonian((h1,), e_0=e0)
+        return ham, U.restricted_terms([h1], norb), e0, "spinbroken"
     if route == "quadratic-gso":
         dim = 2 * norb
         h1 = numpy.zeros((dim, dim), dtype=numpy.complex128)
@@ -204,8 +215,8 @@ def run_main(ctx):
     d, rng = ctx.driver, ctx.rng
     quick = ctx.tier == "quick"
     routes = ["diagonal", "quadratic", "quadratic-gso", "diagcoulomb", "individual", "sparse-multi", "taylor-dense",
-              "individual-spinbroken", "individual-spinbroken", "quadratic-sso"]
-    ncases = 70 if quick else 3000
+              "individual-spinbroken", "individual-spinbroken", "quadratic-sso", "quadratic-sb"]
+    ncases = 88 if quick else 3300
     for case in range(ncases):
         route = routes[case % len(routes)]
         norb = rng.choice([2, 2, 3]) if route not in ("quadratic-gso",) else 2
@@ -233,7 +244,7 @@ def run_main(ctx):
         want = expm(-1j * t * H) @ psi
         if route in ("taylor-dense", "sparse-multi"):
             api = rng.choice(["time_evolve", "time_evolve", "agu-taylor", "agu-cheb"])
-        elif route in ("diagonal", "quadratic", "diagcoulomb", "quadratic-gso", "quadratic-sso") and abs(t) <= 0.5:
+        elif route in ("diagonal", "quadratic", "diagcoulomb", "quadratic-gso", "quadratic-sso", "quadratic-sb") and abs(t) <= 0.5:
             # the polynomial propagators must agree with the exact routes for every Hamiltonian class
             api = rng.choice(["time_evolve", "time_evolve", "agu-taylor", "agu-cheb"])
         else:
